@@ -65,6 +65,9 @@ def lookup (km : Keymap) (c : Coord) : List Nat → Action × List Nat
 def dropUntilNextAction (cs : List Contrib) : List Contrib :=
   cs.filter fun c => match c with | .key _ _ true => false | _ => true
 
+/-- at most 64 contributions are tracked; further ones are dropped -/
+def add (cs : List Contrib) (c : Contrib) : List Contrib := if cs.length < 64 then cs ++ [c] else cs
+
 mutual
   /-- what a press at `coord` contributes when it performs `a` (fragment of C04); `below` = the
   layers still to search for a nested transparent item -/
@@ -74,11 +77,15 @@ mutual
       let (a, below) := match a with
         | .trans => lookup km coord below
         | a => (a, below)
-      let s := { s with contribs := dropUntilNextAction s.contribs }
+      performFound km coord fuel { s with contribs := dropUntilNextAction s.contribs } a below
+  /-- the found (non-transparent) action takes effect -/
+  def performFound (km : Keymap) (coord : Coord) : Nat → State → Action → List Nat → State
+    | 0, s, _, _ => s
+    | fuel + 1, s, a, below =>
       match a with
-      | .keyCode kc => { s with contribs := s.contribs ++ [.key kc coord false] }
-      | .multipleKeyCodes kcs => { s with contribs := s.contribs ++ kcs.map (fun kc => .key kc coord true) }
-      | .layer l => { s with contribs := s.contribs ++ [.layer l coord] }
+      | .keyCode kc => { s with contribs := add s.contribs (.key kc coord false) }
+      | .multipleKeyCodes kcs => { s with contribs := kcs.foldl (fun cs kc => add cs (.key kc coord true)) s.contribs }
+      | .layer l => { s with contribs := add s.contribs (.layer l coord) }
       | .defaultLayer l => if l < km.cfg.layers.length then { s with base := l } else s
       | .releaseState (.keyCode kc) =>
         { s with contribs := s.contribs.filter fun c => match c with | .key k _ _ => k != kc | _ => true }
@@ -97,13 +104,16 @@ def contribCoord : Contrib → Coord
   | .key _ c _ => c
   | .layer _ c => c
 
+/-- nesting budget of `perform` (an action nested deeper than this is not performed) -/
+def DEPTH : Nat := 3999
+
 /-- one tick: the oldest pending event takes effect -/
 def step (km : Keymap) (s : State) : State :=
   match s.pending with
   | [] => s
   | .press c :: rest =>
     let s := { s with pending := rest }
-    perform km c FUEL s .trans (searchOrder km s)
+    perform km c DEPTH s .trans (searchOrder km s)
   | .release c :: rest =>
     { s with pending := rest, contribs := s.contribs.filter (fun x => contribCoord x != c) }
 
